@@ -429,6 +429,10 @@ fn layer_names(r: &mut Rng, n: usize) -> Vec<String> {
         names.push(dotted.to_string());
         r.shuffle(&mut names);
     }
+    if names.is_empty() && r.chance(1, 5) {
+        // names are arbitrary strings: quotes, backslash, tab, space
+        names.push((*r.pick(&["vendor's gems", "q\"uote", "back\\slash", "t\tab", "two  spaces"])).to_string());
+    }
     if names.is_empty() && n >= 2 && r.chance(1, 4) {
         // a layer whose name is a plain prefix of a sibling's name
         let (short, long) = *r.pick(&[("ruby", "ruby-gems"), ("node", "node_modules"), ("a", "a-1"), ("jdk", "jdk17")]);
